@@ -19,8 +19,9 @@
                                        view(): optimiser stage -> convert_one_hot_points_to_distinct_categorical_points
      views/rest/random_search_next_points.py, spe_next_points.py (create_random_suggestions, draw_samples' proposals:
                                        generate_random_points_near_point around the lower points, uniform padding)
-   No proofs here.  The acquisition function is an arbitrary function of the lies appended so far; every random draw is
-   an oracle argument. *)
+   No proofs here.  The acquisition function is an arbitrary PARTIAL function (None = NaN, as in Model/Optim.v) of the lies appended
+   so far; a batch without any defined value makes numpy.nanargmax raise ValueError: an error value of the stage, like the
+   assertion branches.  Every random draw is an oracle argument. *)
 From Coq Require Import List QArith ZArith Bool Arith Qround Qabs.
 From LV Require Import Model.Domain Model.Decode Model.EndpointTail.
 From LV Require Model.Restrict Model.Samplers Model.Optim Model.Distinct.
@@ -106,6 +107,16 @@ Arguments SErr {A} e.
 Definition lift {A} (r : OP.result A) : sres A := match r with OP.Ok a => SOk a | OP.Err e => SErr (SOpt e) end.
 Definition sbind {A B} (r : sres A) (f : A -> sres B) : sres B := match r with SOk a => f a | SErr e => SErr e end.
 
+(* numpy.argmax over acquisition values that may be NaN (None): NaN propagates through numpy's maximum, so the index of the FIRST
+   NaN is returned when there is one; otherwise the first maximum.  (The optimisers themselves use numpy.nanargmax: C07's monitor.) *)
+Fixpoint first_none {A} (l : list (option A)) (i : nat) : option nat :=
+  match l with [] => None | None :: _ => Some i | Some _ :: r => first_none r (S i) end.
+Definition argmax_nan (l : list (option Q)) : nat :=
+  match first_none l 0 with
+  | Some i => i
+  | None => argmax (map (fun o => match o with Some v => v | None => 0 end) l)
+  end.
+
 (* the random draws of ONE call of vectorized_acquisition_optimization *)
 Record vorc := {
   v_gen_es : nat -> list row;       (* domain.generate_quasi_random_points_in_domain(k), asked by the DE optimiser *)
@@ -127,12 +138,12 @@ Record vpar := {
 }.
 
 (* vectorized_acquisition_optimization(es_af_optimizer, gd_af_optimizer, pretest_locations) *)
-Definition vec_acq_opt (d : domain) (fixed : list (nat * Q)) (c : row) (af : row -> Q) (best_obs : row) (P : vpar)
+Definition vec_acq_opt (d : domain) (fixed : list (nat * Q)) (c : row) (af : row -> option Q) (best_obs : row) (P : vpar)
   (pretest : list row) (o : vorc) : sres row :=
   match pretest with
   | [] => SErr SValue                                   (* numpy.argmax of an empty sequence *)
   | _ :: _ =>
-      let best_af_location := nth (argmax (map af pretest)) pretest [] in
+      let best_af_location := nth (argmax_nan (map af pretest)) pretest [] in
       sbind (lift (OP.de_optimize af (oh_restrict d fixed c (v_us_es o)) (v_gen_es o) (p_de P) (p_es_maxiter P)
                      (Some [best_af_location; best_obs]) (v_ds o))) (fun o_es =>
       match OP.best_location o_es with
@@ -151,7 +162,7 @@ Definition vec_acq_opt (d : domain) (fixed : list (nat * Q)) (c : row) (af : row
 
 (* constant_liar_acquisition_function_optimization: afl lies = the acquisition function after append_lie_locations of the
    points found so far (a deep copy: the caller's function, afl [], is untouched); best lies = its best_location *)
-Fixpoint cl_loop (d : domain) (fixed : list (nat * Q)) (c : row) (afl : list row -> row -> Q) (best : list row -> row)
+Fixpoint cl_loop (d : domain) (fixed : list (nat * Q)) (c : row) (afl : list row -> row -> option Q) (best : list row -> row)
   (P : vpar) (pretest : list row) (lies : list row) (os : list vorc) : sres (list row) :=
   match os with
   | [] => SOk []
@@ -162,13 +173,13 @@ Fixpoint cl_loop (d : domain) (fixed : list (nat * Q)) (c : row) (afl : list row
       else SErr SAssert)
   end.
 (* the loop runs num_to_sample times: one oracle record per iteration *)
-Definition cl_stage (d : domain) (fixed : list (nat * Q)) (c : row) (afl : list row -> row -> Q) (best : list row -> row)
+Definition cl_stage (d : domain) (fixed : list (nat * Q)) (c : row) (afl : list row -> row -> option Q) (best : list row -> row)
   (P : vpar) (pretest : list row) (n : nat) (os : list vorc) : sres (list row) :=
   if Nat.eqb (length os) n then cl_loop d fixed c afl best P pretest [] os else SErr SScript.
 
 (* qei_acquisition_function_optimization with one point to sample (views/view.py asserts "capping number of qEI
    suggestions to 1"): DE from quasi-random starts only, its best location reshaped to (1, dim_with_task) *)
-Definition qei_stage (d : domain) (fixed : list (nat * Q)) (c : row) (af : row -> Q) (Pde : OP.de_par) (maxiter : nat)
+Definition qei_stage (d : domain) (fixed : list (nat * Q)) (c : row) (af : row -> option Q) (Pde : OP.de_par) (maxiter : nat)
   (gen : nat -> list row) (us : nat -> list Q) (ds : list (list (nat * nat * nat) * list (list Q))) : sres (list row) :=
   sbind (lift (OP.de_optimize af (oh_restrict d fixed c us) gen Pde maxiter None ds)) (fun o =>
   match OP.best_location o with
@@ -180,7 +191,7 @@ Definition qei_stage (d : domain) (fixed : list (nat * Q)) (c : row) (af : row -
    the best pretest location on the one-hot domain; afl lies = the probability-of-improvement search function after the
    points found so far were added as repulsors and the distance parameter was re-drawn *)
 Record sorc := { so_gen : nat -> list row; so_us : nat -> list Q; so_ds : list (list (nat * nat * nat) * list (list Q)) }.
-Fixpoint search_loop (d : domain) (c : row) (afl : list row -> row -> Q) (Pde : OP.de_par) (maxiter : nat) (pretest : list row)
+Fixpoint search_loop (d : domain) (c : row) (afl : list row -> row -> option Q) (Pde : OP.de_par) (maxiter : nat) (pretest : list row)
   (lies : list row) (os : list sorc) : sres (list row) :=
   match os with
   | [] => SOk []
@@ -188,7 +199,7 @@ Fixpoint search_loop (d : domain) (c : row) (afl : list row -> row -> Q) (Pde : 
       match pretest with
       | [] => SErr SValue
       | _ :: _ =>
-          let best_af_location := nth (argmax (map (afl lies) pretest)) pretest [] in
+          let best_af_location := nth (argmax_nan (map (afl lies) pretest)) pretest [] in
           sbind (lift (OP.de_optimize (afl lies) (oh_restrict d [] c (so_us o)) (so_gen o) Pde maxiter
                          (Some [best_af_location]) (so_ds o))) (fun o_de =>
           match OP.best_location o_de with
@@ -224,7 +235,7 @@ Inductive gp_mode :=
 | GQei (Pde : OP.de_par) (maxiter : nat) (gen : nat -> list row) (us : nat -> list Q)
        (ds : list (list (nat * nat * nat) * list (list Q)))   (* parallel EI with pending points, one suggestion *)
 | GSearch (Pde : OP.de_par) (maxiter : nat) (pretest : list row) (os : list sorc).   (* the search endpoint's own optimisation *)
-Definition gp_stage (D : domain) (fixed : list (nat * Q)) (c : row) (afl : list row -> row -> Q) (best : list row -> row)
+Definition gp_stage (D : domain) (fixed : list (nat * Q)) (c : row) (afl : list row -> row -> option Q) (best : list row -> row)
   (n : nat) (m : gp_mode) : sres (list row) :=
   match m with
   | GCl P pretest os => cl_stage D fixed c afl best P pretest n os
@@ -237,44 +248,46 @@ Definition gp_stage (D : domain) (fixed : list (nat * Q)) (c : row) (afl : list 
   end.
 Definition is_qei (m : gp_mode) : bool := match m with GQei _ _ _ _ _ => true | _ => false end.
 
-(* GpNextPointsCategorical.view without task options *)
-Definition gp_endpoint (d : domain) (c : row) (afl : list row -> row -> Q) (best : list row -> row) (n : nat) (m : gp_mode)
+(* GpNextPointsCategorical.view without task options.  afl is the (partial) acquisition function the optimisers see; aft is the
+   same function as the discrete neighbour search of convert_from_one_hot sees it: Model/EndpointTail.v models that search (Python's
+   max over the neighbours' values) for a total function only, so it is a separate, arbitrary argument *)
+Definition gp_endpoint (d : domain) (c : row) (afl : list row -> row -> option Q) (aft : row -> Q) (best : list row -> row) (n : nat) (m : gp_mode)
   (hist : list point) (dec : dorc) (f : gp_fill) : option response :=
   match gp_stage d [] c afl best n m with
   | SErr _ => None
   | SOk xs =>
-      obind (convert_from_one_hot d (is_qei m) (afl []) dec xs) (fun pts =>
+      obind (convert_from_one_hot d (is_qei m) aft dec xs) (fun pts =>
       obind (mk_qorc d c (fill_k d pts hist) (f_so f) (f_cols f) (f_dec f)) (fun q =>
-      gp_view d [] (is_qei m) (afl []) xs hist []
+      gp_view d [] (is_qei m) aft xs hist []
         {| g_dec := dec; g_hdec := dec; g_choice := f_choice f; g_q := q |}))
   end.
 (* ... with task options: the search domain carries the task column, fixed at the task drawn a priori; ct is the interior
    point of that domain *)
-Definition gp_endpoint_mt (d : domain) (opts : list Q) (t : Q) (ct : row) (afl : list row -> row -> Q) (best : list row -> row)
+Definition gp_endpoint_mt (d : domain) (opts : list Q) (t : Q) (ct : row) (afl : list row -> row -> option Q) (aft : row -> Q) (best : list row -> row)
   (n : nat) (P : vpar) (pretest : list row) (os : list vorc)
   (hist_oh : list row) (dec hdec : dorc) (f : gp_fill) : option response :=
   let dt := with_task d opts in
   match cl_stage dt (task_fixed d t) ct afl best P pretest n os with
   | SErr _ => None
   | SOk xs =>
-      obind (convert_from_one_hot dt false (afl []) dec xs) (fun pts =>
+      obind (convert_from_one_hot dt false aft dec xs) (fun pts =>
       obind (decode_b dt hdec hist_oh) (fun aug =>
       obind (mk_qorc dt ct (fill_k dt pts aug) (f_so f) (f_cols f) (f_dec f)) (fun q =>
-      gp_view d opts false (afl []) xs [] hist_oh
+      gp_view d opts false aft xs [] hist_oh
         {| g_dec := dec; g_hdec := hdec; g_choice := f_choice f; g_q := q |})))
   end.
 
 (* SearchNextPoints.view: the expected-improvement phases are the GP endpoint; in the explore / resolve phase, with
    probability 0.8, the probability-of-improvement search is optimised instead, converted with the neighbour search,
    de-duplicated against the history (the same funnel, no task costs: gp_endpoint in mode GSearch) *)
-Definition search_endpoint (d : domain) (c : row) (ph : sphase) (u : Q) (afl : list row -> row -> Q) (best : list row -> row)
-  (n : nat) (m : gp_mode) (afl_pi : list row -> row -> Q) (Pde : OP.de_par) (maxiter : nat) (pretest : list row) (sos : list sorc)
+Definition search_endpoint (d : domain) (c : row) (ph : sphase) (u : Q) (afl : list row -> row -> option Q) (aft : row -> Q) (best : list row -> row)
+  (n : nat) (m : gp_mode) (afl_pi : list row -> row -> option Q) (aft_pi : row -> Q) (Pde : OP.de_par) (maxiter : nat) (pretest : list row) (sos : list sorc)
   (hist : list point) (dec : dorc) (f : gp_fill) : option response :=
   match ph with
   | SResolve =>
-      if Qltb u RESOLVE_PHASE_PROB then gp_endpoint d c afl_pi best n (GSearch Pde maxiter pretest sos) hist dec f
-      else gp_endpoint d c afl best n m hist dec f
-  | _ => gp_endpoint d c afl best n m hist dec f
+      if Qltb u RESOLVE_PHASE_PROB then gp_endpoint d c afl_pi aft_pi best n (GSearch Pde maxiter pretest sos) hist dec f
+      else gp_endpoint d c afl aft best n m hist dec f
+  | _ => gp_endpoint d c afl aft best n m hist dec f
   end.
 
 (* ------------------------------------------------------------------ 7. the Parzen-estimator endpoint *)
